@@ -14,10 +14,15 @@ def run(chk):
              "/..//.", "s:/a/..//b", "a/..///b"]      # the guard segment of normalization: its "." must be a block of the object's own
     texts += uris.valid_texts(mdl, uris.small_texts(2, alphabet=uris.SEG_FULL, auths=(None, "//H%41", "//u@[::1]:8", "//1.2.3.4", "//[vF.x]"), schemes=(None, "S"), queries=(None, "%7e"), frags=(None, "F")))
     if q: texts = texts[:21] + chk.rng.sample(texts[21:], 250)
+    # every combination of absent / empty / non-empty components (an empty component of an owned URI is the library's constant,
+    # never a pointer into the source), IPv6 spellings of every length
+    deg = uris.valid_texts(mdl, uris.degenerate_texts()) + uris.valid_texts(mdl, uris.long_ip6_texts())
+    texts += chk.rng.sample(deg, 160) if q else deg
     reqs = []
     for t in texts:
         reqs.append("makeowner " + uris.P(t))
-        for mask in ([63, 1, 2, 4, 8, 16, 32, 4294967295] if q else list(range(1, 64)) + [4294967295]):
+        # masks made of undefined bits only are non-zero masks too: the URI must come back owned
+        for mask in ([63, 1, 2, 4, 8, 16, 32, 4294967295, 64, 2147483648, 4294967232] if q else list(range(1, 64)) + [4294967295] + uris.ODD_MASKS):
             for ow in (0, 1): reqs.append("normalize %d %d %s" % (mask, ow, uris.P(t)))
         reqs.append("normalize 0 0 " + uris.P(t))
     # resolution / reference creation: the sources are read-only arguments (ro=) and the results borrow from them
